@@ -289,7 +289,7 @@ pub fn run_check(ctx: &Ctx) -> Report {
     let shards = ctx.shards;
     let mut rep = par_shards(ctx.shards, rep, move |shard, r| {
         enumerate_templates(r, shard, shards, depth);
-        let cfg = DiffCfg { prop: "C11", driver: "random-control", profile: Profile::control(), cases, max_len: 600, seed: seed.wrapping_mul(49_979_687) + shard as u64 };
+        let cfg = DiffCfg { prop: "C11", driver: "random-control", profile: Profile::control(), cases, max_len: 600, seed: seed.wrapping_mul(49_979_687) + shard as u64, layout: false };
         run_diff_tapes(r, &cfg, &nontrivial, &known);
     });
     residue_family(&mut rep);
